@@ -194,6 +194,113 @@ for _dg, _ds in (("gamma", "normal"), ("normal", "gamma")):
                               module_env=_MC_ENV, registry=_MC_REG, label=f"hvsrpy.hvsr_spatial.montecarlo_fn[generators={_dg},spatial={_ds}]",
                               clauses=["unrecognised distributions are refused"]))
 
+# ---------------------------------------------------------------------------------------------------------------------
+# the bookkeeping around the geometry: _cull_points keeps exactly the sensors the boundary contains, in order, and returns their positions in `coordinates`;
+# _voronoi_weights divides the area of every cell by the area of the boundary and hands the indices on.  shapely's Point / contains / Polygon(...).area and the
+# tessellation itself are opaque (the geometric half of the property stays bounded): INSIDE(x, y), AREA(cell), TOTAL.
+from pyvc.objects import new_symlist, SObj
+from pyvc.core import B
+NPT = z3.Int("n_sensors")
+XY = z3.Const("coordinates", _A2(R))
+INSIDE = z3.Function("boundary_contains", R, R, B)
+KCP = z3.Function("KCP", I, I)            # number of retained sensors before sensor i
+_ri, _qi = z3.Ints("r!kc q!kc")
+
+
+def _ins(i):
+    return INSIDE(z3.Select(z3.Select(XY, i), 0), z3.Select(z3.Select(XY, i), 1))
+
+
+AX_KCP = [KCP(0) == 0, z3.ForAll([_ri], z3.Implies(_ri >= 0, KCP(_ri + 1) == KCP(_ri) + z3.If(_ins(_ri), 1, 0)), patterns=[KCP(_ri + 1)]),
+          z3.ForAll([_ri], z3.Implies(_ri >= 0, z3.And(KCP(_ri) >= 0, KCP(_ri) <= _ri)), patterns=[KCP(_ri)]),
+          z3.ForAll([_ri, _qi], z3.Implies(z3.And(0 <= _ri, _ri <= _qi), KCP(_ri) <= KCP(_qi)), patterns=[z3.MultiPattern(KCP(_ri), KCP(_qi))]),
+          z3.ForAll([_ri, _qi], z3.Implies(z3.And(0 <= _ri, _ri < _qi, _ins(_ri)), KCP(_ri) < KCP(_qi)), patterns=[z3.MultiPattern(KCP(_ri), KCP(_qi))])]
+
+
+def _cull_inputs(ex, st):
+    st.env["self"] = sym_obj(ex, st, "HvsrSpatial", {"coordinates": ex.alloc_arr(st, (NPT, z3.IntVal(2)), XY, "real", "param:self.coordinates", tag="coordinates")}, owner="param:self")
+    st.env["mask"] = sym_obj(ex, st, "Polygon", {}, owner="param:mask")
+    st.env["NPT"] = NPT
+    return [NPT >= 0]
+
+
+def _m_np_array_pairs(ex, st, args, kw, node):
+    from pyvc.objects import SLRef
+    x = args[0]
+    if isinstance(x, SLRef) and st.heap[x.sid].cls is None and isinstance(st.heap[x.sid].arr.sort().range(), z3.ArraySortRef):
+        d = st.heap[x.sid]
+        return ex.alloc_arr(st, (d.length, z3.IntVal(2)), d.arr, "real", "fresh", tag="points")
+    return npm.NP.attrs["array"].fn(ex, st, args, kw, node)
+
+
+_CULL_ENV = {"Point": FuncV(lambda ex, st, a, k, n_: Tup((_real(a[0]), _real(a[1]))), "Point"),
+             "np": ModV("np", dict(npm.NP.attrs, array=FuncV(_m_np_array_pairs, "np.array")))}
+_CULL_REG = {"Polygon.contains": FuncV(lambda ex, st, a, k, n_: INSIDE(a[1][0], a[1][1]), "contains")}
+_INS = "INSIDE(self.coordinates[i, 0], self.coordinates[i, 1])"
+CULL = Contract(qual="hvsrpy.hvsr_spatial.HvsrSpatial._cull_points", params=["self", "mask"], ghost={"INSIDE": INSIDE, "KCP": KCP, "NPT": NPT}, axioms=AX_KCP, make_inputs=_cull_inputs,
+                sym_lists={"passing_points": "realarr", "passing_indices": "int"},
+                ensures=["len(result[1]) == KCP(NPT)", "result[0].shape[0] == KCP(NPT) and result[0].shape[1] == 2",
+                         f"forall(i, 0, NPT, implies({_INS}, result[1][KCP(i)] == i and result[0][KCP(i), 0] == self.coordinates[i, 0] and result[0][KCP(i), 1] == self.coordinates[i, 1]))"],
+                loops={0: ["len(passing_indices) == KCP(_k0) and len(passing_points) == KCP(_k0)",
+                           f"forall(i, 0, _k0, implies({_INS}, passing_indices[KCP(i)] == i and ROW(passing_points, KCP(i), 0) == self.coordinates[i, 0] and "
+                           "ROW(passing_points, KCP(i), 1) == self.coordinates[i, 1]))"]},
+                modifies=[], notes="the retained sensors are exactly those the boundary contains, in their original order; index k of the result is the position of the k-th retained "
+                                   "sensor in `coordinates`")
+CULL.ghost["ROW"] = FuncV(lambda ex, st, a, k, n_: z3.Select(z3.Select(st.heap[a[0].sid].arr, _lit(a[1])), _lit(a[2])), "ROW")
+TASKS.append(FunctionTask(CULL, module_env=_CULL_ENV, registry=_CULL_REG, clauses=["sensors outside the boundary are dropped; the returned indices identify the retained ones"]))
+from pyvc.contract import LemmaTask as _LT
+_r14, _q14, _kp14 = z3.Int("r"), z3.Int("q"), z3.Bool("inside_q")
+TASKS += [_LT("retained-count-monotone[step]", [_r14 >= 0, _q14 >= _r14, KCP(_r14) <= KCP(_q14), KCP(_q14 + 1) == KCP(_q14) + z3.If(_kp14, 1, 0)], KCP(_r14) <= KCP(_q14 + 1), "A-INDUCTION step"),
+          _LT("retained-count-range[step]", [_r14 >= 0, KCP(_r14) >= 0, KCP(_r14) <= _r14, KCP(_r14 + 1) == KCP(_r14) + z3.If(_kp14, 1, 0)], z3.And(KCP(_r14 + 1) >= 0, KCP(_r14 + 1) <= _r14 + 1), "A-INDUCTION step")]
+
+# _voronoi_weights: weight i = area of cell i / area of the boundary; indices handed on
+NREG = z3.Int("n_regions")
+AREAF = z3.Function("cell_area", I, R)
+TOTAL = z3.Real("boundary_area")
+
+
+def _vw_inputs(ex, st):
+    st.env["self"] = sym_obj(ex, st, "HvsrSpatial", {}, owner="param:self")
+    st.env["boundary"] = StrV("<boundary>")
+    st.env["NREG"] = NREG
+    return [NREG >= 0, TOTAL != 0]
+
+
+def _m_bounded_voronoi(ex, st, args, kw, node):
+    from pyvc.core import SeqV
+    regions = SeqV(NREG, lambda ex_, st_, i: ModV("region", {"__cell": i, "__getitem__": FuncV(lambda e2, s2, a2, k2, n2: a2[0], "region[...]")}), owner="fresh", name="regions")
+    return Tup((regions, StrV("<indices of the retained sensors>")))
+
+
+def _m_vstack(ex, st, args, kw, node):
+    first = args[0][0]
+    return ModV("closed", {"__cell": first.attrs["__cell"]})
+
+
+def _m_polygon(ex, st, args, kw, node):
+    return ModV("Polygon", {"area": AREAF(_lit(args[0].attrs["__cell"]))})
+
+
+class _Region:
+    pass
+
+
+def _region_getitem(ex, st, region, idx):
+    return region
+
+
+_VW_ENV = {"np": ModV("np", dict(npm.NP.attrs, vstack=FuncV(_m_vstack, "np.vstack"))), "Polygon": FuncV(_m_polygon, "Polygon")}
+_VW_REG = {"HvsrSpatial._boundary_to_mask": FuncV(lambda ex, st, a, k, n_: ModV("mask", {"area": TOTAL}), "_boundary_to_mask"),
+           "HvsrSpatial._bounded_voronoi": FuncV(_m_bounded_voronoi, "_bounded_voronoi")}
+VW = Contract(qual="hvsrpy.hvsr_spatial.HvsrSpatial._voronoi_weights", params=["self", "boundary"], ghost={"AREA": AREAF, "TOTAL": TOTAL, "NREG": NREG,
+                                                                                                            "is_indices": FuncV(lambda ex, st, a, k, n_: z3.BoolVal(isinstance(a[0], StrV) and a[0].s == "<indices of the retained sensors>"), "is_indices")},
+              make_inputs=_vw_inputs, stable_shapes=("areas",),
+              ensures=["len(result[0]) == NREG", "forall(i, 0, NREG, result[0][i] == AREA(i) / TOTAL)", "is_indices(result[1])"],
+              loops={0: ["forall(i, 0, _k0, areas[i] == AREA(i))"]}, modifies=[],
+              notes="weight i = area of the i-th clipped cell / area of the boundary's convex region; the indices of _bounded_voronoi are handed on unchanged")
+VW.subscript_model = True
+TASKS.append(FunctionTask(VW, module_env=_VW_ENV, registry=_VW_REG, clauses=["weights are cell areas over the boundary area"]))
+
 META = dict(
     level="other",
     explanation="proved: _statistics (normalised weights, weighted mean over all realisations, reliability-weighted standard deviation; row sums named); "
